@@ -165,8 +165,16 @@ func (fs LocalFileSystem) Create(ctx context.Context, name string, body io.ReadC
 		return nil, false, err
 	}
 
+	if fi != nil && fi.IsDir {
+		return nil, false, NewHTTPError(http.StatusMethodNotAllowed, fmt.Errorf("webdav: cannot PUT to a collection"))
+	}
+
 	wc, err := os.Create(p)
-	if err != nil {
+	if os.IsNotExist(err) || errors.Is(err, syscall.ENOTDIR) {
+		// RFC 4918 section 9.7.1: a PUT without an existing parent
+		// collection must fail with 409
+		return nil, false, NewHTTPError(http.StatusConflict, errFromOS(err))
+	} else if err != nil {
 		return nil, false, errFromOS(err)
 	}
 	defer wc.Close()
